@@ -62,6 +62,9 @@ var c13Faults = []c13Fault{
 	{"division-by-zero-second-line", "{{ 1\n/ 0 }}", 1, false, ""},
 	{"type-mismatch-second-line", "{{ 1\n+ \"a\" }}", 1, false, ""},
 	{"modulo-by-zero-second-line", "{{ (2 +\n3)\n% 0 }}", 2, false, ""},
+	// the offending token is itself a string that spans lines: the error names the line on which it ends
+	{"unknown-property-multi-line-string", "{{ {a: 1}[\"x\ny\"] }}", 1, false, ""},
+	{"unexpected-multi-line-string", "{{ 1 \"p\n\nq\" }}", 2, true, ""},
 	// faults of a slot passed to a component (the component file comp9 has several lines of its own)
 	{"undefined-slot", `@component("comp9")@slot("zz")x@end@end`, 0, true, "slot"},
 	{"slot-passed-twice", `@component("comp9")@slot("n")x@end@slot("n")y@end@end`, 0, true, "slot"},
